@@ -30,15 +30,21 @@ def simple_check(prop, tier, replay, gens, kind, rule, tv_module=None, boundary=
                     raise ToolError(f"spec invariant {gen['violated']} violated in {g['module']}:\n" + gen["out"][-3000:])
                 if gen["vectors"] == 0:
                     raise ToolError(f"{g['module']}: no vectors generated (vacuous run)")
+                # generators may carry a cap: every k-th vector is used when a universe yields more than `cap` vectors
+                every = 1
+                if g.get("cap"):
+                    with open(part) as f:
+                        nl = sum(1 for _ in f)
+                    every = max(1, -(-nl // g["cap"]))
                 seen = set()
-                for l in open(part):
-                    if l not in seen:
+                for li, l in enumerate(open(part)):
+                    if l not in seen and li % every == 0:
                         seen.add(l)
                         fall.write(l)
                 os.remove(part)
                 for k in ("generated", "distinct", "wall"):
                     tot[k] += gen[k]
-                space_cov.append({"module": g["module"],
+                space_cov.append({"module": g["module"], "every": every,
                                   "constants": {k: (sorted(v) if isinstance(v, (set, frozenset)) else v) for k, v in g["constants"].items()},
                                   "mode": "exhaustive" if not g.get("simulate") else f"tlc -simulate num={g['simulate']} x {g.get('nshards', 1)} seeds",
                                   "states": gen["distinct"], "vectors": len(seen)})
@@ -414,7 +420,7 @@ def c26(prop, tier, replay):
     if not replay:
         dv, _ = decl_vectors(prop, tier)
         extra += dv
-    gens = [{"module": "Gen_G", "constants": with_(universe(tier), Filter="all"), "invariants": ["Emit"], "spec": "ESpec", "nshards": 16},
+    gens = [{"module": "Gen_G", "constants": with_(universe(tier), Filter="all"), "invariants": ["Emit"], "spec": "ESpec", "nshards": 16, "cap": 150000},
             {"module": "Gen_G", "constants": with_(R_WIDE, Filter="all"), "invariants": ["Emit"], "spec": "ESpec", "nshards": 16,
              "simulate": 40 if tier == "quick" else 1500, "depth": 12}] + ebnf_gens(tier, False)
     return simple_check(
@@ -435,10 +441,10 @@ def c26(prop, tier, replay):
 
 def c19(prop, tier, replay):
     from p_bnf import universe, with_, R_WIDE
-    gens = [{"module": "Gen_G", "constants": with_(universe(tier), Filter="wf"), "invariants": ["Emit"], "spec": "ESpec", "nshards": 16},
+    gens = [{"module": "Gen_G", "constants": with_(universe(tier), Filter="wf"), "invariants": ["Emit"], "spec": "ESpec", "nshards": 16, "cap": 40000},
             {"module": "Gen_G", "constants": with_(R_WIDE, Filter="wf"), "invariants": ["Emit"], "spec": "ESpec", "nshards": 16,
              "simulate": 40 if tier == "quick" else 1500, "depth": 12}]
-    n = 12 if tier == "quick" else 120
+    n = 12 if tier == "quick" else 24
     return simple_check(
         prop, tier, replay, gens, "c19",
         f"every well-formed grammar of the universe is built as LL(k) and as LALR(1) parser (when parol accepts it); each parser runs on {n} "
